@@ -182,13 +182,24 @@ def run_shard(shard, tier, seed, acc):
     if kind == 'N':
         fam = spaces.nary_path((spaces.P, spaces.Q, spaces.T))
         forms = [(q, g) for g in fam[::2] for q in 'AE']
+        # Boolean roots with a quantified operand in every position of a 3-ary and/or
+        Pq, Qq = spaces.P, spaces.Q
+        quant = [('E', ('G', Qq)), ('A', ('F', Pq)), ('E', ('X', ('A', ('G', Pq)))), ('A', ('F', ('G', Qq)))]
+        for op in ('and', 'or'):
+            for x in quant:
+                forms += [(op, x, Pq, Qq), (op, Pq, x, Qq), (op, Pq, Qq, x), ('not', (op, Pq, x, ('not', Qq))),
+                          (op, x, Pq, quant[0])]
         for k in (spaces.kripke_reps(1) + spaces.kripke_reps(2))[shard[1]:shard[2]]:
             Kl = lib.to_kripke(k)
+            snap = lib.snapshot_kripke(Kl)
             for j, f in enumerate(forms):
                 if j % 64 == 0 and deadline_passed():
                     acc.capped()
                     return
                 check_one(k, Kl, f, acc, audit=(j % 8 == 0))
+                if (j % 16 == 15 or j == len(forms) - 1) and lib.snapshot_kripke(Kl) != snap:
+                    acc.violation('structure-modified', kcase(k, f))
+                    Kl = lib.to_kripke(k)
         return
     if kind == 'NEG':
         forms = [(q, g) for g in spaces.negated_path() for q in 'AE']
@@ -245,6 +256,13 @@ def replay(art):
     Kl = lib.to_kripke(k)
     if art['kind'] == 'structure-modified':
         snap = lib.snapshot_kripke(Kl)
+        if 'f' in case:
+            # the formula at hand and the 15 before it in its family
+            fam = spaces.nary_path((spaces.P, spaces.Q, spaces.T))
+            call(lib.CTLS.modelcheck, Kl, lib.build(spaces.from_jsonable(case['f']), lib.CTLS))
+            if lib.snapshot_kripke(Kl) != snap:
+                return {'violates': True}
+            return {'violates': False, 'note': 'not reproduced by the single formula'}
         for s in (0, 1, 2):
             for f in spaces.ctls_state_by_size(s):
                 call(lib.CTLS.modelcheck, Kl, lib.build(f, lib.CTLS))
